@@ -1254,7 +1254,7 @@ class Corr:
     def __pow__(self, y):
         if isinstance(y, (Obs, int, float, CObs)):
             newcontent = [None if _check_for_none(self, item) else item**y for item in self.content]
-            return Corr(newcontent, prange=self.prange)
+            return Corr(_drop_nan_slices(self, newcontent), prange=self.prange)
         else:
             raise TypeError('Type of exponent not supported')
 
@@ -1268,7 +1268,7 @@ class Corr:
 
     def log(self):
         newcontent = [None if _check_for_none(self, item) else np.log(item) for item in self.content]
-        return Corr(newcontent, prange=self.prange)
+        return Corr(_drop_nan_slices(self, newcontent), prange=self.prange)
 
     def exp(self):
         newcontent = [None if _check_for_none(self, item) else np.exp(item) for item in self.content]
@@ -1447,6 +1447,19 @@ def _sort_vectors(vec_set_in, ts):
             sorted_vec_set.append(vec_set_in[t])
 
     return sorted_vec_set
+
+
+def _drop_nan_slices(corr, content):
+    """Marks timeslices on which the result is not a number as undefined"""
+    newcontent = list(content)
+    for t in range(len(newcontent)):
+        if _check_for_none(corr, newcontent[t]):
+            continue
+        tmp_sum = np.sum(newcontent[t])
+        if hasattr(tmp_sum, "value"):
+            if np.isnan(tmp_sum.value):
+                newcontent[t] = None
+    return newcontent
 
 
 def _check_for_none(corr, entry):
